@@ -193,11 +193,18 @@ def translate_c_to_sympy(source_circuit):
         elif gate.name in {"PHASE", "RX", "RY", "RZ"}:
             target_circuit *= GATE_SYMPY[gate.name](gate.target[0], gate.parameter)
         elif gate.name in {"CNOT", "CH", "CX", "CY", "CZ", "CS", "CT"}:
-            target_circuit *= GATE_SYMPY[gate.name](gate.control[0], gate.target[0])
+            if len(gate.control) == 1:
+                target_circuit *= GATE_SYMPY[gate.name](gate.control[0], gate.target[0])
+            else:
+                # Multi-controlled gate: all the controls are passed on (sympy's CGate takes a tuple)
+                from sympy.physics.quantum.gate import XGate
+                multi_ctrl_gate = controlled_gate(XGate) if gate.name in {"CNOT", "CX"} else GATE_SYMPY[gate.name]
+                target_circuit *= multi_ctrl_gate(tuple(gate.control), gate.target[0])
         elif gate.name in {"SWAP"}:
             target_circuit *= GATE_SYMPY[gate.name](gate.target[0], gate.target[1])
         elif gate.name in {"CRX", "CRY", "CRZ", "CPHASE"}:
-            target_circuit *= GATE_SYMPY[gate.name](gate.control[0], gate.target[0], gate.parameter)
+            controls = gate.control[0] if len(gate.control) == 1 else tuple(gate.control)
+            target_circuit *= GATE_SYMPY[gate.name](controls, gate.target[0], gate.parameter)
         else:
             raise ValueError(f"Gate '{gate.name}' not supported on backend SYMPY")
 
